@@ -72,6 +72,7 @@ func DecodeSMGP30(data []byte) (sms.PDU, error) {
 }
 
 func genTimestamp() uint32 {
+	clockYield()
 	t := time.Now()
 	return uint32(int(t.Month())*100000000 + t.Day()*1000000 +
 		t.Hour()*10000 + t.Minute()*100 + t.Second())
